@@ -237,7 +237,25 @@ def build(unit_path, repo, canary=False):
                     j = j2
                 else:
                     break
-            _extract(u, repo, d, arg, spec, groups, "%s:%d" % (os.path.basename(unit_path), i + 1))
+            where_ = "%s:%d" % (os.path.basename(unit_path), i + 1)
+            if d in ("@closure", "@slice"):
+                # statement / closure slices are called by nobody: when their anchor is lost (code restructured) only the
+                # properties their clauses serve become undecided; the rest of the unit is still decided
+                mark = len(u.out)
+                nclauses, nfuncs = len(u.clauses), len(u.functions)
+                try:
+                    _extract(u, repo, d, arg, spec, groups, where_)
+                except ExtractError as e:
+                    del u.out[mark:]
+                    del u.clauses[nclauses:]
+                    del u.functions[nfuncs:]
+                    lost = set(spec.props)
+                    for c in spec.sig:
+                        lost |= set(c.props)
+                    for pp in lost:
+                        u.lost_hints.setdefault(pp, []).append("%s: %s" % (where_, e))
+            else:
+                _extract(u, repo, d, arg, spec, groups, where_)
             i = j
         else:
             raise ExtractError("%s:%d: unknown directive %s" % (unit_path, i + 1, d))
